@@ -198,15 +198,6 @@ Section Engine.
   | DCont (k : list frame) (sg : signal)
   | DRet (sg : signal).
 
-  Definition count_starts (i : nat) (tr : list obs) : nat :=
-    count_occ_b (fun o => match o with OStart i' _ _ => Nat.eqb i i' | _ => false end) tr.
-  Definition count_sleeps (i : nat) (tr : list obs) : nat :=
-    count_occ_b (fun o => match o with OSleep i' _ => Nat.eqb i i' | _ => false end) tr.
-  Definition count_emits (mgr : nat) (ev : evkind) (n : option key) (tr : list obs) : nat :=
-    count_occ_b (fun o => match o with OEmit m e n' _ _ => Nat.eqb m mgr && evkind_eqb e ev && okey_eqb n n' | _ => false end) tr.
-  Definition count_saves (n : key) (tr : list obs) : nat :=
-    count_occ_b (fun o => match o with OSave n' _ => key_eqb n n' | _ => false end) tr.
-
   Definition finally_a (n : key) (st : mstate) : mstate := notify (CNode n) (set_event n st).
   Definition finally_b (d : rdag) (n : key) (st : mstate) : mstate :=
     let st1 := set_event n st in
@@ -254,13 +245,13 @@ Section Engine.
     | FEmit ev n err res mgr false, SGo =>
       if Nat.leb (p_mgrs P) mgr then (st, DRet (SVal VNone))
       else
-        let k := count_emits mgr ev n (st_trace st) in
-        let st1 := emit_obs (OEmit mgr ev n err res) st in
+        let k := ctr_get (CEmit mgr ev n) st in
+        let st1 := bump (CEmit mgr ev n) (emit_obs (OEmit mgr ev n err res) st) in
         if p_mgr_gated P then (st1, DSuspend (WGate (GEmit ev n mgr k)) [FEmit ev n err res mgr true])
         else if p_mgr_fault P mgr ev n k then (st1, DRet (SThrow (XMgr k)))
              else (st1, DCont [FEmit ev n err res (S mgr) false] SGo)
     | FEmit ev n err res mgr true, SGo =>
-      let k := Nat.pred (count_emits mgr ev n (st_trace st)) in
+      let k := Nat.pred (ctr_get (CEmit mgr ev n) st) in
       if p_mgr_fault P mgr ev n k then (st, DRet (SThrow (XMgr k)))
       else (st, DCont [FEmit ev n err res (S mgr) false] SGo)
     (* ---------------- ArtifactStore.save ---------------- *)
@@ -268,8 +259,8 @@ Section Engine.
       match p_store P with
       | StNone => (st, DRet (SVal VNone))
       | _ =>
-        let k := count_saves n (st_trace st) in
-        let st1 := emit_obs (OSave n v) st in
+        let k := ctr_get (CSave n) st in
+        let st1 := bump (CSave n) (emit_obs (OSave n v) st) in
         if p_store_gated P then (st1, DSuspend (WGate (GSave n k)) [FSave n v true k])
         else (st1, DCont [FSave n v true k] SGo)
       end
@@ -403,8 +394,8 @@ Section Engine.
     | FRetry i force kw att, SGo =>
       if force then (emit_obs (ODefault i kw) st, DRet (SVal (VDef i kw)))
       else
-        let k := count_starts i (st_trace st) in
-        let st1 := emit_obs (OStart i k kw) st in
+        let k := ctr_get (CBody i) st in
+        let st1 := bump (CBody i) (emit_obs (OStart i k kw) st) in
         match ns_mode (nspec_of i) with
         | MImmediate | MInline => (st1, DCont [FRetryAfterBody i kw att] SGo)
         | _ => (st1, DSuspend (WGate (GBody i k)) [FRetryAfterBody i kw att])
@@ -422,8 +413,8 @@ Section Engine.
       let dl := pol_delay (nspec_of i) in
       match dl with
       | O => (st, DYield [FRetryAfterSleep i kw att])
-      | _ => let k := count_sleeps i (st_trace st) in
-             (emit_obs (OSleep i dl) st, DSuspend (WGate (GTimer i k)) [FRetryAfterSleep i kw att])
+      | _ => let k := ctr_get (CSleep i) st in
+             (bump (CSleep i) (emit_obs (OSleep i dl) st), DSuspend (WGate (GTimer i k)) [FRetryAfterSleep i kw att])
       end
     | FRetryAfterSleep i kw att, SGo => (st, DCont [FRetry i false kw (S att)] SGo)
     (* ---------------- _run_recurrent_subgraph ---------------- *)
@@ -462,13 +453,22 @@ Section Engine.
     | _, _ => (st, DRet (SThrow (XEng EOutOfFuel inp)))
     end.
 
+  (* The interpreter's fuel ran out inside one atomic segment (never on a real case: the driver reports it and the
+     correspondence check would flag it): the whole run is marked dead, every task finished with the model-only error. *)
+  Definition abort (st : mstate) : mstate :=
+    {| st_store := st_store st; st_adddata := st_adddata st;
+       st_tasks := map (fun x => {| t_id := t_id x; t_name := t_name x; t_state := TDone (SThrow (XEng EOutOfFuel inp));
+                                    t_helper := t_helper x |}) (st_tasks st);
+       st_ready := []; st_waiters := []; st_events := st_events st; st_trace := st_trace st; st_ctrs := st_ctrs st;
+       st_next := st_next st |}.
+
   (* Run task t from its stack until it suspends or finishes. *)
   Fixpoint exec (fuel : nat) (t : tid) (k : list frame) (sg : signal) (st : mstate) : mstate :=
     match k with
     | [] => set_tstate t (TDone sg) st
     | fr :: rest =>
       match fuel with
-      | O => set_tstate t (TDone (SThrow (XEng EOutOfFuel inp))) st
+      | O => abort st
       | S f =>
         match step_frame t fr sg st with
         | (st1, DSuspend w k') => suspend t w (k' ++ rest) st1
@@ -488,7 +488,7 @@ Section Engine.
     | t :: rest =>
       let st1 := {| st_store := st_store st; st_adddata := st_adddata st;
                     st_tasks := st_tasks st; st_ready := rest; st_waiters := st_waiters st;
-                    st_events := st_events st; st_trace := st_trace st; st_next := st_next st |} in
+                    st_events := st_events st; st_trace := st_trace st; st_ctrs := st_ctrs st; st_next := st_next st |} in
       match find_task t (st_tasks st1) with
       | Some {| t_state := TReady k sg |} => exec fuel_budget t k sg st1
       | _ => st1
